@@ -75,6 +75,41 @@ fn item_attrs(it: &Item) -> Vec<Attribute> {
     }
 }
 
+/// Parts of a statement / member that carry their own `#[cfg]` (struct-expression fields, match
+/// arms): each becomes an item of its own with the conjoined guard and is removed from the parent.
+struct Peel<'a> { found: Vec<(usize, C, TokenStream)>, outer: C, atoms: &'a mut Atoms }
+impl<'a> syn::visit_mut::VisitMut for Peel<'a> {
+    fn visit_expr_struct_mut(&mut self, e: &mut ExprStruct) {
+        let fields: Vec<FieldValue> = e.fields.iter().cloned().collect();
+        let mut keep: syn::punctuated::Punctuated<FieldValue, Token![,]> = syn::punctuated::Punctuated::new();
+        for f in fields {
+            let g = guard_of(&f.attrs, self.atoms);
+            if matches!(g, C::Tt) { keep.push(f); }
+            else { let line = syn::spanned::Spanned::span(&f).start().line; self.found.push((line, C::and(self.outer.clone(), g), f.to_token_stream())); }
+        }
+        e.fields = keep;
+        syn::visit_mut::visit_expr_struct_mut(self, e);
+    }
+    fn visit_expr_match_mut(&mut self, e: &mut ExprMatch) {
+        let arms: Vec<Arm> = e.arms.drain(..).collect();
+        for a in arms {
+            let g = guard_of(&a.attrs, self.atoms);
+            if matches!(g, C::Tt) { e.arms.push(a); }
+            else { let line = syn::spanned::Spanned::span(&a).start().line; self.found.push((line, C::and(self.outer.clone(), g), a.to_token_stream())); }
+        }
+        syn::visit_mut::visit_expr_match_mut(self, e);
+    }
+}
+
+fn push_peeled_stmt(out: &mut Out, file: usize, line: usize, guard: &C, st: &Stmt, atoms: &mut Atoms) {
+    let mut st = st.clone();
+    let mut p = Peel { found: vec![], outer: guard.clone(), atoms };
+    syn::visit_mut::VisitMut::visit_stmt_mut(&mut p, &mut st);
+    let found = std::mem::take(&mut p.found);
+    push_item(out, file, line, guard, st.to_token_stream());
+    for (l, g, ts) in found { push_item(out, file, l, &g, ts); }
+}
+
 fn push_item(out: &mut Out, file: usize, line: usize, guard: &C, ts: TokenStream) {
     let (mut a, mut s, mut u) = (false, false, 0usize);
     scan(ts, &mut a, &mut s, &mut u);
@@ -98,7 +133,16 @@ fn walk_items(items: &[Item], file: usize, outer: &C, atoms: &mut Atoms, out: &m
                 for ii in &im.items {
                     let attrs = match ii { ImplItem::Fn(f) => f.attrs.clone(), ImplItem::Const(c) => c.attrs.clone(), ImplItem::Type(t) => t.attrs.clone(), _ => vec![] };
                     let gi = C::and(g.clone(), guard_of(&attrs, atoms));
-                    push_item(out, file, syn::spanned::Spanned::span(ii).start().line, &gi, ii.to_token_stream());
+                    if let ImplItem::Fn(f) = ii {
+                        push_item(out, file, syn::spanned::Spanned::span(ii).start().line, &gi, f.sig.to_token_stream());
+                        for st in &f.block.stmts {
+                            let sattrs: Vec<Attribute> = match st { Stmt::Local(l) => l.attrs.clone(), Stmt::Expr(e, _) => expr_attrs(e), Stmt::Macro(m) => m.attrs.clone(), Stmt::Item(i) => item_attrs(i) };
+                            let gs = C::and(gi.clone(), guard_of(&sattrs, atoms));
+                            push_peeled_stmt(out, file, syn::spanned::Spanned::span(st).start().line, &gs, st, atoms);
+                        }
+                    } else {
+                        push_item(out, file, syn::spanned::Spanned::span(ii).start().line, &gi, ii.to_token_stream());
+                    }
                 }
             }
             Item::Struct(s) => {
@@ -114,7 +158,7 @@ fn walk_items(items: &[Item], file: usize, outer: &C, atoms: &mut Atoms, out: &m
                 for st in &f.block.stmts {
                     let attrs: Vec<Attribute> = match st { Stmt::Local(l) => l.attrs.clone(), Stmt::Expr(e, _) => expr_attrs(e), Stmt::Macro(m) => m.attrs.clone(), Stmt::Item(i) => item_attrs(i) };
                     let gs = C::and(g.clone(), guard_of(&attrs, atoms));
-                    push_item(out, file, syn::spanned::Spanned::span(st).start().line, &gs, st.to_token_stream());
+                    push_peeled_stmt(out, file, syn::spanned::Spanned::span(st).start().line, &gs, st, atoms);
                 }
             }
             _ => push_item(out, file, line, &g, it.to_token_stream()),
